@@ -36,6 +36,38 @@ for L in lengths:
                 ok = False
             comp.case((L, opts, len(prefix) > 0, enc), ok, sample={"keylen": L, "options": list(opts), "xorencoded": enc},
                       witness={"keylen": L, "key_hex": key.hex(), "options": list(opts), "prefix_len": len(prefix), "xorencoded": enc})
+# configurations in which another aligned n-gram is exactly as frequent as the key n-gram (a long constant-byte setting value):
+# the key is then the SECOND of two tied candidates and must still be tried
+import collections
+tie = Component("tied-key-candidates", "configurations whose largest setting value is a run of one byte, its length chosen so that the "
+                "run's n-gram and the key's n-gram (from the zero padding) are equally frequent at the key length; key lengths 7, 64, 160")
+def masked(cfg_, key_):
+    full = cfg_ + bytes(6144 - len(cfg_))
+    return bytes(c ^ key_[i % len(key_)] ^ 0x2E for i, c in enumerate(full))
+for L in (7, 64, 160):
+    key = bytes((37 * i + 11) % 255 + 1 for i in range(L))
+    hdr = bytes.fromhex("0001000100020000" "00020001000201bb")
+    found = 0
+    for n_run in range(6144 // 2 - 200, 6144 // 2 + 200):
+        body = hdr + (12).to_bytes(2, "big") + (3).to_bytes(2, "big") + n_run.to_bytes(2, "big") + b"A" * n_run
+        m_ = masked(body, key)
+        cnt = collections.Counter(m_[i:i + L] for i in range(0, len(m_) - L + 1, L))
+        top = cnt.most_common(2)
+        keygram = bytes(k ^ 0x2E for k in key)
+        if len(top) == 2 and top[0][1] == top[1][1] and keygram in (top[0][0], top[1][0]):
+            found += 1
+            raw = ns["guardrails_payload"](key, (6,), config=body, prefix=b"\x90" * 9, suffix=b"\x00" * 5)
+            try:
+                bc = BeaconConfig.from_bytes(raw)
+                g = bc.guardrails
+                ok = g is not None and g.payload_xor_key is not None and g.unmasked_beacon_config[:len(body)] == body
+            except Exception as ex:   # noqa
+                ok = False
+            tie.case((L, n_run), ok, witness={"keylen": L, "run_length": n_run, "key_hex": key.hex()[:64]})
+            if found >= 2:
+                break
+    if not found:
+        tie.case((L, "no tie constructible"), True, nontrivial=False)
 for _ in range(60 if TIER == "quick" else 600):
     n = rng.randrange(0, 7000)
     data = bytes(rng.randrange(256) for _ in range(n)) if rng.random() < 0.5 else bytes(n)
@@ -45,4 +77,4 @@ for _ in range(60 if TIER == "quick" else 600):
     except Exception:
         ok = False
     heur.case((n, data[:4]), ok, witness={"len": n, "head": data[:16].hex()})
-emit([comp, heur])
+emit([comp, heur, tie])
